@@ -16,7 +16,9 @@ You are working in `{wt}`, a scratch git worktree of the Python library tzok/rna
 writing, base-pair / stacking annotation from 3D coordinates, BPSEQ / dot-bracket conversion with MILP pseudoknot-order assignment).
 Work ONLY inside this directory. Never touch `/repo` or `/verif` and do not read anything under `/verif`.
 Run Python as `PYTHONPATH={wt}/src /venv/bin/python ...` so that the worktree's sources are imported (the package is otherwise
-installed from another directory). The sandbox has no network. Do not commit anything.
+installed from another directory). The sandbox has no network. Do not commit anything, and do NOT use `git stash` (the stash is shared by all
+worktrees of the repository and other people work in sibling worktrees): to get back to the unchanged tree save your diff to a file and run
+`git checkout -- src`, then `git apply <file>` to restore it.
 
 Below is a semantic property that the library is expected to satisfy, as JSON (statement, the code it is anchored in, where it can be observed):
 
